@@ -234,6 +234,17 @@ def make_archive(spec, seed, sibling=False):
     raise ValueError(kind)
 
 
+def ranker_arg(spec):
+    """The `ranker` argument in the form the case asks for: abbreviation, full class name, or the class itself
+    (all three are documented; the emitter hands each of them the child seed it spawned for the ranker)."""
+    form = spec.get("rform", "abbr")
+    if form == "abbr":
+        return spec["ranker"]
+    from ribs.emitters import rankers as R
+    cls = R._NAME_TO_RANKER_MAP[spec["ranker"]]   # pylint: disable=protected-access
+    return cls.__name__ if form == "full" else cls
+
+
 def make_emitter(spec, archive, seed, k, sibling=False):
     import ribs.emitters as E
     s = mkseed(seed, spec, sibling)
@@ -241,11 +252,11 @@ def make_emitter(spec, archive, seed, k, sibling=False):
     kind = spec["kind"]
     if kind == "es":
         return _spy(E.EvolutionStrategyEmitter)(
-            archive, x0=x0, sigma0=0.5, ranker=spec["ranker"], es=spec["es"], selection_rule=spec.get("sel", "filter"),
+            archive, x0=x0, sigma0=0.5, ranker=ranker_arg(spec), es=spec["es"], selection_rule=spec.get("sel", "filter"),
             restart_rule=spec.get("restart", "no_improvement"), batch_size=spec.get("batch", 4), seed=s)
     if kind == "ga":
         return _spy(E.GradientArborescenceEmitter)(
-            archive, x0=x0, sigma0=0.5, lr=0.1, ranker=spec["ranker"], es=spec["es"],
+            archive, x0=x0, sigma0=0.5, lr=0.1, ranker=ranker_arg(spec), es=spec["es"],
             grad_opt=spec.get("grad_opt", "adam"), normalize_grad=bool(spec.get("norm", True)),
             selection_rule=spec.get("sel", "filter"), restart_rule=spec.get("restart", "no_improvement"),
             batch_size=spec.get("batch", 4), seed=s)
@@ -561,7 +572,7 @@ def describe(case):
         return "/" + k
 
     ar = a["kind"] + (f"/{a['method']}" if a["kind"] == "cvt" else "") + sk(a)
-    ems = ",".join(e["kind"] + (f"[{e['es']},{e['ranker']}]" if e["kind"] in ("es", "ga") else "")
+    ems = ",".join(e["kind"] + (f"[{e['es']},{e['ranker']}{':' + e['rform'] if e.get('rform', 'abbr') != 'abbr' else ''}]" if e["kind"] in ("es", "ga") else "")
                    + (sk(e) if seed_kind(e) != "int" else "") for e in case["emitters"])
     return f"{ar} seed={a['seed']} | {ems} | {case['sched']} | {len(case['ops'])} it"
 
@@ -772,6 +783,7 @@ def es_emitter(rng, archive_kind, es=None, ranker=None, kind="es", sk=None):
          "es": es or rng.choice(ES_NAMES), "batch": rng.choice([4, 6]),
          "sel": rng.choice(["filter", "mu"]), "restart": rng.choice(["no_improvement", "basic", 2])}
     e["ranker"] = "nov" if archive_kind == "proximity" else (ranker or rng.choice(RANKERS))
+    e["rform"] = rng.choice(["abbr", "abbr", "full", "class", "class"])
     if e["es"] == "lm_ma_es":
         # LM-MA-ES rejects batch_size > dimension of its search space (D, or measure_dim + 1 inside a GA emitter)
         e["batch"] = 4 if kind == "es" else rng.choice([2, 3])
